@@ -8,6 +8,14 @@ from . import common as C
 def gen_family(fam, tier):
     """TLC-enumerated case file for a family (cached per spec hash: it depends on spec/ only)."""
     cache = C.ensure_dir(os.path.join(C.OUT, "cache"))
+    if fam == "R":
+        # seeded random ASTs (binding B2): generated here, judged by TLC like every other family
+        from . import randast
+        path = os.path.join(cache, "R.%s.seed%d.ndjson" % (tier, C.seed()))
+        if not os.path.exists(path):
+            n = randast.write(path, C.seed(), tier)
+            C.log("generated family R (%s, seed %d): %d random patterns" % (tier, C.seed(), n))
+        return path
     path = os.path.join(cache, "%s.%s.%s.ndjson" % (fam, tier, C.spec_hash()))
     if os.path.exists(path) and os.path.getsize(path) > 0:
         return path
@@ -41,6 +49,17 @@ def gen_families(fams, tier, workdir):
     return out, counts
 
 
+MEM_LIMIT_GB = 8
+
+
+def limit_memory():
+    """Address-space limit for a runner process: a search or a compile that allocates without bound
+    aborts (and is attributed to its case) instead of exhausting the machine."""
+    import resource
+    lim = MEM_LIMIT_GB << 30
+    resource.setrlimit(resource.RLIMIT_AS, (lim, lim))
+
+
 def run_runner(binp, sub, cases, workdir, opts, shards=12, timeout=1800, label="obs", extra_outs=()):
     """Run `runner <sub>` over the cases in shards; a shard that dies is restarted after the case that
     killed it, and the death is recorded as data. extra_outs: additional (flag, label) output files.
@@ -68,7 +87,7 @@ def run_runner(binp, sub, cases, workdir, opts, shards=12, timeout=1800, label="
             cmd = [binp, sub, "--cases", cases, "--shard", "%d/%d" % (i, shards), "--skip", str(skip)] + opts
             for flag, lab in labels:
                 cmd += [flag, outs[lab][i]]
-            procs.append((i, skip, subprocess.Popen(cmd, stdout=subprocess.DEVNULL, stderr=subprocess.PIPE)))
+            procs.append((i, skip, subprocess.Popen(cmd, stdout=subprocess.DEVNULL, stderr=subprocess.PIPE, preexec_fn=limit_memory)))
         pending = []
         for i, skip, p in procs:
             try:
